@@ -761,6 +761,26 @@ pub fn c17_sessions(neighbours: &[char]) -> EnumOutcome {
                         // clear by Down
                         let _ = feed::<RawCommand<'static>>(&mut s, b"\x1b[B", HMode::Silent);
                     }
+                    // 4b. the scalar alone as the whole line (for a White_Space scalar the line consists of blank-looking
+                    // characters only, yet it is a command name): dispatched, recorded, recalled
+                    if !special && n == neighbours[0] {
+                        for line in [c.to_string(), format!("{}{}", c, c)] {
+                            let (calls, _, st) = feed::<RawCommand<'static>>(&mut s, format!("{}\n", line).as_bytes(), HMode::Silent);
+                            if st.is_err() || calls.len() != 1 || calls[0].name != line || !calls[0].args.is_empty() {
+                                fail("C17/submit-alone", format!("line {:?}: handler saw {:?} ({:?})", line, calls, st), &mut o);
+                                continue;
+                            }
+                            #[cfg(feature = "history")]
+                            {
+                                let (_, _, st) = feed::<RawCommand<'static>>(&mut s, b"\x1b[A", HMode::Silent);
+                                let sn = snap(&s.cli);
+                                if st.is_err() || sn.text != line.as_bytes() {
+                                    fail("C17/recall-alone", format!("submitted {:?}, Up shows {:?}", line, String::from_utf8_lossy(&sn.text)), &mut o);
+                                }
+                                let _ = feed::<RawCommand<'static>>(&mut s, b"\x1b[B", HMode::Silent);
+                            }
+                        }
+                    }
                     // 5. `x -c`: short option
                     if !special {
                         let line = format!("x -{}", c);
